@@ -563,6 +563,24 @@ def observe_with_weights(h):
 
 
 @contextlib.contextmanager
+def quiet_fd2():
+    """silence file descriptor 2 (the progress bar library keeps its own reference to the original stderr stream)"""
+    import os
+    import sys
+    sys.stderr.flush()
+    saved = os.dup(2)
+    devnull = os.open(os.devnull, os.O_WRONLY)
+    try:
+        os.dup2(devnull, 2)
+        yield
+    finally:
+        sys.stderr.flush()
+        os.dup2(saved, 2)
+        os.close(saved)
+        os.close(devnull)
+
+
+@contextlib.contextmanager
 def warnings_off():
     import warnings
     with warnings.catch_warnings(), np.errstate(all='ignore'):
@@ -745,7 +763,7 @@ def run(res):
                                    observed='%s: %s' % (type(e).__name__, e), expected='no exception'))
     targets, expo = make_targets(data, res.seed % 1000)
     # progress bars of inner grid searches (bootstrap sampling) go to stderr: keep the check's output to its own lines
-    with contextlib.redirect_stderr(io.StringIO()):
+    with quiet_fd2():
         cases, meta = history_cases(res, rng, 396 if quick else 4004, data, targets, expo)
     with common.CaseDir(PROP) as cd:
         failing, errors = common.run_bool_cases(cd, HEADER, cases, 'check_case', shard=60)
